@@ -838,6 +838,7 @@ func c18(args []string) int {
 	sLock := seeds("W3 W3 SW VOPEN VLOCK", "W1 SW CMP:1 W3 SW VOPEN W1 SW VLOCK")
 	sHold := seeds("W3 W3 SW VOPEN VLOCK D VAC SW VPOLL", "W3 W3 SW VOPEN VLOCK D VAC SW", "W3 W3 SW VOPEN VLOCK W3 SW VPOLL", "W1 SW VOPEN VLOCK W3 W3 SW VPOLL D VAC SW")
 	aHold := sub("VPOLL VUNLOCK VLOCK W1 SW")
+	sBatch := seeds("W3 W3 SW VOPEN W3 SW D VAC SW", "W3 SW VOPEN W3 W3 SW D SW VAC SW", "W3 W3 SW VOPEN U SW D VAC SW W1 SW", "W3 SW VOPEN W3 SW W3 SW D VAC SW")
 	sGap := seeds("W1 SW VOPEN W3 SW U SW W1 SW", "W1 SW W1 SW CMP:1 W1 SW VOPEN W1 SW W1 SW", "W1 SW CMP:1 W1 SW CMP:1 CMP:2 W1 SW VOPEN W1 SW")
 	sTT := seeds("W1 SW W3 SW D VAC SW W1 SW", "W1 SW W1 SW CMP:1 W1 SW SNAP W1 SW", "W3 SW W1 SW CMP:1 D VAC SW CMP:1 CMP:2 W1 SW")
 	sTTI := seeds("W3 W3 SW D IVAC SW W1 SW CMP:1 W1 SW", "W3 SW SNAP W3 SW D SW IVAC SW")
@@ -855,6 +856,10 @@ func c18(args []string) int {
 		{Name: "retention/512-none/cache1", Cfg: n512, Cache: one(n512), Alphabet: aGap, Depth: d(2, 3), Seeds: append(sGap, strings.Fields("W1 SW VOPEN W1 SW W1 SW W1 SW CMP:1"))},
 		{Name: "pruned/512-incr/cache-default", Cfg: i512p, Alphabet: aGap, Depth: d(2, 3), Seeds: sGap},
 		{Name: "locked/512-none/l0-pruned/cache-default", Cfg: n512p, Alphabet: sub("W1 D VAC SW CMP:1 VPOLL VUNLOCK VLOCK"), Depth: d(2, 4), Seeds: sLock},
+		// one poll that covers several new files (the reader did not poll between the primary's syncs), ending in
+		// or containing a shrink: what the batch collected before the shrinking file must not survive it
+		{Name: "batched-poll/512-none/cache-default", Cfg: n512, Alphabet: sub("VPOLL W1 SW VLOCK VUNLOCK"), Depth: d(2, 4), Seeds: sBatch},
+		{Name: "batched-poll/512-none/cache1", Cfg: n512, Cache: one(n512), Alphabet: sub("VPOLL W3 SW"), Depth: d(2, 3), Seeds: sBatch},
 		// a read lock held across several polls: whatever a poll defers to the unlock (pending index, pending
 		// replace after a shrink) must survive further polls, with and without new files, until VUNLOCK
 		{Name: "held-lock/512-none/cache-default", Cfg: n512, Alphabet: aHold, Depth: d(3, 5), Seeds: sHold},
